@@ -6,7 +6,7 @@ From RG Require Import Base.Bytes Base.BytesFacts Base.LineTerm Model.Lines Mode
   Spec.GrepSpec Spec.RegexSem Model.RegexBuild Model.RegexLiteral Model.CoreLinePaths
   Proofs.LinesProofs Proofs.SlowPathProofs Proofs.FastPathProofs Proofs.FindSpecProofs
   Proofs.RegexSemProofs Proofs.RegexBuildProofs Proofs.RegexPassesProofs Proofs.RegexLiteralProofs
-  Proofs.LinePathsProofs Proofs.LineLocalityProofs.
+  Proofs.LinePathsProofs Proofs.LineLocalityProofs Proofs.RegexLiteralBytes.
 
 (* ---- the literal search ---- *)
 Definition occ (l hay : bytes) (q : nat) : Prop := q + length l <= length hay /\ sub hay q (q + length l) = l.
@@ -474,22 +474,55 @@ Proof.
   unfold lit_is_poisonous in Hp. destruct (l_bytes x); [discriminate|discriminate].
 Qed.
 
+(* build_many's final HIR has no leaf that can produce the advertised byte terminator *)
+Lemma leaf_free_wrap b c h : leaf_free b h = true -> leaf_free b (wrap c h) = true.
+Proof.
+  intro H. unfold wrap, into_whole_line, into_word.
+  destruct (c_whole_line c); [cbn; now rewrite H|]. destruct (c_word c); [cbn; now rewrite H|exact H].
+Qed.
+
+Lemma build_leaf_free norm rc tr final b :
+  build norm rc tr = inl (final, Some (RTByte b)) -> leaf_free b final = true.
+Proof.
+  unfold build. destruct (configure norm rc tr) as [h|e] eqn:E; [|discriminate].
+  intro H; injection H as <- Ha. unfold advertised_terminator in Ha.
+  destruct (contains_anchor_haystack (wrap rc h)); [discriminate|].
+  unfold configure in E. destruct (match c_ban rc with Some x => ban_check x tr | None => None end); [discriminate|].
+  rewrite Ha in E. cbn [strip_from_match] in E. unfold strip_from_match_ascii in E.
+  destruct (127 <? b)%N; [discriminate|]. apply leaf_free_wrap. exact (strip_ascii_leaf_free b tr h E).
+Qed.
+
+Lemma not_in_nolf (l : bytes) : ~ In LF l -> nolf l.
+Proof.
+  unfold nolf. induction l as [|x r IH]; intro H; cbn; [reflexivity|]. apply andb_true_iff. split.
+  - apply negb_true_iff, N.eqb_neq. intro E. apply H. left. now symmetry.
+  - apply IH. intro Hin. apply H. now right.
+Qed.
+
+Theorem literals_free_of_terminator_proof : forall norm rc tr final b acc lits,
+  (b <= 127)%N -> build norm rc tr = inl (final, Some (RTByte b)) ->
+  fast_line_literals (inner_literals rc acc final) = Some lits -> forall l, In l lits -> ~ In b l.
+Proof.
+  intros norm rc tr final b acc lits Hb Hbuild E l Hin.
+  exact (fast_line_literals_free b Hb rc acc final lits (build_leaf_free norm rc tr final b Hbuild) E l Hin).
+Qed.
+
 (* C01 for the model, both line paths, every searcher configuration without binary detection:
    the run of SliceByLine equals the grep reference whose "line matches" test is "the final HIR
    has a match in the line's content" *)
 Theorem c01_slice_run_eq_ref_proof :
   forall norm, norm_ok norm ->
-  forall rc tr final acc lits span fa cfg s,
+  forall rc tr final acc span fa cfg s,
     build norm rc tr = inl (final, Some (RTByte LF)) ->
     local_looks final = true ->
-    fast_line_literals (inner_literals rc acc final) = lits ->
-    (forall ls l, lits = Some ls -> In l ls -> nolf l) ->
     span_ok final span ->
     c_lt cfg = LTByte LF -> c_binary cfg = BNone ->
-    slice_by_line_run cfg (regex_line_matcher final (Some (RTByte LF)) lits span fa) (fun _ => Continue) s
+    slice_by_line_run cfg (regex_line_matcher final (Some (RTByte LF))
+                             (fast_line_literals (inner_literals rc acc final)) span fa) (fun _ => Continue) s
     = RunOk (grep_ref cfg (is_match_sem final) s).
 Proof.
-  intros norm Hn rc tr final acc lits span fa cfg s Hb Hloc Hl Hnl Hspan Hlt Hbin.
+  intros norm Hn rc tr final acc span fa cfg s Hb Hloc Hspan Hlt Hbin.
+  set (lits := fast_line_literals (inner_literals rc acc final)).
   change (is_match_sem final) with (m_is_match (regex_line_matcher final (Some (RTByte LF)) lits span fa)).
   apply slice_eq_ref_proof; [exact Hbin|]. apply find_spec_of_cand_proof.
   apply regex_cand_ok_proof; auto.
@@ -497,8 +530,10 @@ Proof.
     pose proof (build_line_terminator_promise_proof norm Hn rc tr final (RTByte LF) buf i j Hb Mm p Hp) as H.
     cbn in H. rewrite Hbyte in H. discriminate.
   - unfold lits_ok. destruct lits as [ls|] eqn:E; [|exact I]. split.
-    + intros l Hin. split; [exact (fast_line_literals_nonempty rc acc final ls Hl l Hin)|exact (Hnl ls l eq_refl Hin)].
-    + intros buf a b i j Mm Ha Hbb. exact (candidate_never_skips_proof rc acc final ls buf a b i j Hl Mm Ha Hbb).
+    + intros l Hin. split; [exact (fast_line_literals_nonempty rc acc final ls E l Hin)|].
+      apply not_in_nolf.
+      exact (fast_line_literals_free LF ltac:(lia) rc acc final ls (build_leaf_free norm rc tr final LF Hb) E l Hin).
+    + intros buf a b i j Mm Ha Hbb. exact (candidate_never_skips_proof rc acc final ls buf a b i j E Mm Ha Hbb).
 Qed.
 
 (* ---- span_ok is satisfiable ---- *)
